@@ -223,13 +223,16 @@ CT = {I32: 'U32', I64: 'U64', F32: 'F32', F64: 'F64'}
 _SAFE = re.compile(rb'^[A-WYZa-z0-9]([A-WYZa-z0-9]|_(?!_))*$')
 
 
-def mangle(name):
-    """w2c2's documented identifier escaping for names made of bytes < 0x80 (returns str)"""
+def mangle(name, start=False):
+    """w2c2's documented identifier escaping for names made of bytes < 0x80 (returns str); start=True: the name begins an
+    identifier (import module names), so a leading digit is escaped too"""
     out = []
     prev = None
-    for c in name:
+    for i, c in enumerate(name):
         ch = chr(c)
-        if ch == '_':
+        if start and i == 0 and ch.isdigit():
+            out.append('X%02X' % c)
+        elif ch == '_':
             out.append('__' if prev == '_' else '_')
         elif ch != 'X' and ch.isalnum() and c < 0x80:
             out.append(ch)
@@ -411,7 +414,7 @@ def gen_driver(m, modname, header_text, ninst=2, header_name=None, prefix_funcs=
         if gi < nig:
             imp = m.imported('global')[gi]
             try:
-                expr = '(*ip->%s__%s)' % (mangle(imp[0]), mangle(imp[1]))
+                expr = '(*ip->%s__%s)' % (mangle(imp[0], True), mangle(imp[1]))
             except AssertionError:
                 continue
         else:
@@ -427,7 +430,7 @@ def gen_driver(m, modname, header_text, ninst=2, header_name=None, prefix_funcs=
     if timp or m.table is not None:
         if timp:
             try:
-                texpr = '(*ip->%s__%s)' % (mangle(timp[0][0]), mangle(timp[0][1]))
+                texpr = '(*ip->%s__%s)' % (mangle(timp[0][0], True), mangle(timp[0][1]))
             except AssertionError:
                 texpr = None
         else:
